@@ -47,6 +47,12 @@ def obligations(mod, ctx):
     for r in mod.REQUIRED:
         if r not in names:
             problems.append({"kind": "missing-theorem", "theorem": mod.NAMESPACE + "." + r})
+    if ctx.thorough():
+        # independent re-check of the compiled property module by the toolchain's leanchecker
+        p = C.run(["lake", "env", "leanchecker", mod.NAMESPACE], cwd=C.LEAN)
+        ctx.notes.append("leanchecker %s: rc=%d" % (mod.NAMESPACE, p.returncode))
+        if p.returncode != 0:
+            problems.append({"kind": "leanchecker-rejected", "log": (p.stdout + p.stderr).decode(errors="replace")[-2000:]})
     files = [os.path.join(C.LEAN, f) for f in getattr(mod, "LEAN_FILES", [])]
     files.append(os.path.join(C.LEAN, *mod.NAMESPACE.split(".")) + ".lean")
     for b in B.grep_forbidden(files):
